@@ -137,3 +137,27 @@ def _(self: KB) -> bytes:
 @lemma("otfad-end-address-register-arithmetic")
 def _(end: Range(1, 0xFFFFFFFF), flags: Range(0, 7)):
     ensures((((end - 1) & ~0x07) | flags | 0x3F8) == (end - 1) // 1024 * 1024 + 0x3F8 + flags)
+
+
+# ---- IEE key blob, plain form: the iee_keyblob_t structure the key-blob decryption hands to the engine -------------------------------------
+from spsdk.utils.crypto.iee import IeeKeyBlobAttribute, IeeKeyBlobKeyAttributes, IeeKeyBlobLockAttributes, IeeKeyBlobModeAttributes  # noqa: E402
+
+inline("spsdk.utils.crypto.iee:IeeKeyBlobAttribute.export")
+IEE_ATTR13 = Obj(IeeKeyBlobAttribute, lock=IeeKeyBlobLockAttributes, key_attribute=IeeKeyBlobKeyAttributes,
+                 aes_mode=OneOf(IeeKeyBlobModeAttributes.AesXTS, IeeKeyBlobModeAttributes.AesCTRWAddress, IeeKeyBlobModeAttributes.Bypass))
+
+
+@contract("spsdk.utils.crypto.iee:IeeKeyBlob.plain_data")
+def _(self: Obj(IeeKeyBlob, attributes=IEE_ATTR13, page_offset=U32, key1=Union[Bytes(16), Bytes(32)], key2=Union[Bytes(16), Bytes(32)], start_addr=U32, end_addr=U32)) -> bytes:
+    ensures(len(result) == 96, label="96-bytes")
+    ensures(int.from_bytes(result[0:4], "little") == 0x49454542 and int.from_bytes(result[4:8], "little") == 0x56010000, label="tag-and-version")
+    ensures(result[8] == self.attributes.lock.tag and result[9] == self.attributes.key_attribute.tag and result[10] == self.attributes.aes_mode.tag and result[11] == 0,
+            label="lock-keysize-mode-attributes")
+    ensures(int.from_bytes(result[12:16], "little") == self.page_offset, label="page-offset")
+    ensures(result[16: 16 + len(self.key1)] == self.key1 and result[16 + len(self.key1): 48] == bytes(32 - len(self.key1)), label="key1-zero-padded-to-32")
+    ensures(result[48: 48 + len(self.key2)] == self.key2 and result[48 + len(self.key2): 80] == bytes(32 - len(self.key2)), label="key2-zero-padded-to-32")
+    ensures(int.from_bytes(result[80:84], "little") == self.start_addr and int.from_bytes(result[84:88], "little") == self.end_addr and result[88:92] == bytes(4),
+            label="start-end-reserved")
+    ensures(result[92:96] == CRC(0x104C11DB7, 0xFFFFFFFF, False, 0, result[0:92]).to_bytes(4, "little"), label="crc32-mpeg2-over-the-first-92-bytes")
+    pure()
+    sample_with(lambda rnd: {"self": _mk_iee(rnd)})
